@@ -11,6 +11,7 @@ Attributes, Derivation and Identity specifications (all fault classes).
 """
 from __future__ import annotations
 
+from harness.core import stable
 import io
 import json
 import os
@@ -53,7 +54,7 @@ def norm_data(d):
 
 def err_key(e):
     return (type(e).__name__, expand(getattr(e, "path", None) or ""),
-            expand(str(getattr(e, "reason", None) or e)[:200]))
+            expand(stable(getattr(e, "reason", None) or e)[:200]))
 
 
 def observe(case, ver, tmpdir):
